@@ -155,6 +155,9 @@ func main() {
 	var disk *ethdb.MemDatabase
 	var tdb *trie.Database
 	var t *trie.Trie
+	var sdisk *ethdb.MemDatabase
+	var sdb *state.StateDB
+	saddr := func(k string) common.Address { return common.BytesToAddress(append([]byte("verif-account-"), unhex(k)...)) }
 	for {
 		line, err := in.ReadBytes('\n')
 		if len(line) == 0 && err != nil {
@@ -197,6 +200,42 @@ func main() {
 						r.Err = e.Error()
 					} else {
 						t = nt
+					}
+					r.Value = hex.EncodeToString(root[:])
+				case "sdb-new":
+					sdisk = ethdb.NewMemDatabase()
+					sdb, _ = state.New(common.Hash{}, state.NewDatabase(sdisk))
+				case "sdb-setnonce":
+					sdb.SetNonce(saddr(q.Key), new(big.Int).SetBytes(unhex(q.Value)).Uint64())
+				case "sdb-addbal":
+					sdb.AddBalance(saddr(q.Key), new(big.Int).SetBytes(unhex(q.Value)))
+				case "sdb-setstate":
+					kv := unhex(q.Value)
+					sdb.SetState(saddr(q.Key), common.BytesToHash(kv[:1]), common.BytesToHash(kv[1:]))
+				case "sdb-suicide":
+					sdb.Suicide(saddr(q.Key))
+				case "sdb-create":
+					sdb.CreateAccount(saddr(q.Key))
+				case "sdb-snapshot":
+					r.Value = fmt.Sprint(sdb.Snapshot())
+				case "sdb-revert":
+					sdb.RevertToSnapshot(int(new(big.Int).SetBytes(unhex(q.Value)).Int64()))
+				case "sdb-finalise":
+					sdb.Finalise(true)
+				case "sdb-root":
+					root := sdb.IntermediateRoot(true)
+					r.Value = hex.EncodeToString(root[:])
+				case "sdb-commit":
+					root, e := sdb.Commit(true)
+					if e != nil {
+						r.Err = e.Error()
+					}
+					sdb.Database().TrieDB().Commit(root, false)
+					nsdb, e := state.New(root, state.NewDatabase(sdisk))
+					if e != nil {
+						r.Err = e.Error()
+					} else {
+						sdb = nsdb
 					}
 					r.Value = hex.EncodeToString(root[:])
 				case "evm-run":
